@@ -88,7 +88,11 @@ def resolve(name, params, d, rng):
     elif val == '@basis':
       nb = out.get('n_basis') or 3 * d
       B = rng.randn(nb, d)
-      out[key] = layout(B / np.linalg.norm(B, axis=1, keepdims=True))
+      B = B / np.linalg.norm(B, axis=1, keepdims=True)
+      if rng.randint(2):
+        # a supplied basis need not have unit-norm rows
+        B = B * np.exp(rng.uniform(-1.5, 1.5, size=(nb, 1)))
+      out[key] = layout(B)
     elif val == 'inf':
       out[key] = np.inf
   return out
@@ -139,7 +143,22 @@ def harness_prior(prior, points, d, seed):
 
 
 def tuples_for(name, ds, rng, n_tuples=None):
-  """Index tuples + labels for the weakly supervised learner `name`."""
+  """Index tuples + labels for the weakly supervised learner `name`; one
+  time in three a few tuples are listed twice and two tuples share their
+  first pair (legal input that unique-ing shortcuts get wrong)."""
+  idx, lab = _tuples_for(name, ds, rng, n_tuples)
+  if rng.randint(3) == 0 and len(idx) >= 6:
+    idx = np.array(idx, copy=True)
+    idx[1] = idx[0]
+    if lab is not None:
+      lab = np.array(lab, copy=True)
+      lab[1] = lab[0]
+    if idx.shape[1] >= 3:
+      idx[3, :2] = idx[2, :2]
+  return idx, lab
+
+
+def _tuples_for(name, ds, rng, n_tuples=None):
   kind = KIND[name]
   y = ds['y']
   d = ds['d']
